@@ -18,8 +18,13 @@ Find changes of a DIFFERENT kind and location. Prefer subtle ones: an interactio
 ROUND4 = '''
 THIS ROUND: earlier rounds concentrated on src/range_proof.rs. Put your change OUTSIDE src/range_proof.rs if at all possible — src/protocols/*.rs (scalar / transcript / curve-point protocol traits), src/generators/*.rs (generator chain, aggregated iterator, Bulletproof / Pedersen generators), src/transcripts.rs, src/utils/*.rs (nonce, padding, NullRng), src/ristretto.rs, src/range_statement.rs, src/range_witness.rs, src/range_parameters.rs, src/commitment_opening.rs, src/extended_mask.rs, src/traits.rs — or, if this property can only be broken inside range_proof.rs, in a part of it that none of the known changes touched. At most one of your two changes may be in src/range_proof.rs.
 '''
+ROUND5 = '''
+THIS ROUND: make the change SELF-CONSISTENT — prover and verifier (or code they share) are changed together so that the library still accepts its own proofs in every configuration and recovers its own masks, all existing tests pass, and a casual round-trip test notices nothing; yet the property above is broken (the verified relation is no longer the specified one, something is no longer bound or no longer fresh, the result is no longer the documented / released one, ...). Your demonstration must therefore use something OUTSIDE the changed code as reference: an independent evaluation written from the Bulletproofs+ paper, an independently derived generator / nonce / transcript, a recorded proof of the unchanged tree, or an explicit forgery.
+'''
 if len(sys.argv) > 2 and sys.argv[2] == '--outside-range-proof':
     EXTRA = EXTRA + ROUND4
+if len(sys.argv) > 2 and sys.argv[2] == '--self-consistent':
+    EXTRA = EXTRA + ROUND5
 for l in open(os.path.join(V, 'properties.jsonl')):
     d = json.loads(l)
     pid = d['id']
